@@ -78,6 +78,9 @@ def menu(ctx: Ctx, rng: random.Random) -> list[dict]:
         {"op": "iban.parts", "t": cps("BA" + gen.check_digits("BA", "1234567890123456") + "1234567890123456"), "ai": False},
         {"op": "iban.parts", "t": cps("DE" + gen.check_digits("DE", "370400440532013000") + "370400440532013000"), "ai": False},
         {"op": "iban.parts", "t": cps("CR" + gen.check_digits("CR", "370400440532013000") + "370400440532013000"), "ai": False},
+        # ... and whose bank-identifying fields are cut differently (both banks are listed)
+        {"op": "iban.bank", "t": cps("DK" + gen.check_digits("DK", "10010000000018") + "10010000000018")},
+        {"op": "iban.bank", "t": cps("FI" + gen.check_digits("FI", "10010000000018") + "10010000000018")},
         {"op": "iban.new", "t": cps("NO7586011117948"), "vb": False},
         {"op": "bic.new", "t": cps("1234DEWWXXX"), "strict": False},
         {"op": "bic.validate", "t": cps("1234DEWWXXX"), "strict": True},
